@@ -184,6 +184,25 @@ def check(rep: Report, ctx: Ctx) -> None:
     rb_ok, why = _rollback_discipline(ctx, raw, ins_obj, ins_assoc)
     rep.ob("R10.3", "a failed write is rolled back and re-raised", rb_ok,
            fi=raw, node=raw.node, detail=why)
+    # the recovery assumes a failed insert wrote NOTHING (it looks the
+    # batch's ids up in the store and drops, with their links, the spans it
+    # finds there): each raw insert is one transaction - one commit, not in
+    # a loop, after the whole list was handed to the session (seed C10-z)
+    for f in (ins_obj, ins_assoc):
+        commits = [c for c in ast.walk(f.node) if isinstance(c, ast.Call)
+                   and call_name(c) == "commit"]
+        looped = [c for c in commits
+                  if enclosing(f.node, c, (ast.For, ast.While))]
+        ok = len(commits) >= 1 and not looped
+        rep.ob("R10.3", f"{f.short}: a batch is inserted in one transaction",
+               ok, fi=f, node=(looped or commits or [f.node])[0],
+               detail=("one commit after the whole list" if ok else
+                       (f"{len(looped)} commit(s) inside a loop: a duplicate "
+                        "in a later chunk fails the insert after earlier "
+                        "chunks were committed; the duplicate filter then "
+                        "takes those spans for stored ones and drops them "
+                        "together with their parent links" if looped else
+                        "no commit")))
 
     # ---- R10.4 ---------------------------------------------------------------
     rep.rule("R10.4", "final flush", 3)
